@@ -25,6 +25,15 @@ for sid in ids:
         rows.append((sid, prop, "exit %d" % p.returncode, "; ".join(kinds) or "NOT DETECTED"))
     finally:
         subprocess.run(["git", "-C", "/repo", "checkout", "--", "."])
+        # files the patch ADDED are untracked: remove them too
+        for l in open(os.path.join(d, "patch.diff")):
+            if l.startswith("+++ b/"):
+                nf = l[6:].strip()
+                if subprocess.run(["git", "-C", "/repo", "ls-files", "--error-unmatch", nf], capture_output=True).returncode != 0:
+                    try:
+                        os.remove(os.path.join("/repo", nf))
+                    except OSError:
+                        pass
     print(rows[-1], flush=True)
 subprocess.run([os.path.join(V, ".work", "factx-bin"), "/repo", os.path.join(V, "lean/Dirk/Gen/Facts.lean")])   # facts back to the unchanged tree
 with open(os.path.join(V, "seeded", "MATRIX.md"), "w") as f:
